@@ -94,6 +94,7 @@ def auto_nest(ex, st, first_range, ordinal):
     env = fr.env
     pc_len = len(ex.pc)
     outer_undo = ex.undo
+    outer_wlog = ex.write_log
     loop_vars = []
     cur, rng = st, first_range
     while True:
@@ -200,22 +201,23 @@ def auto_nest(ex, st, first_range, ordinal):
         appended.append((lst, lst.pop()))
 
     # -- ownership of written cells -----------------------------------------------------------------
-    owner = {}
+    import itertools as _it
+    cand_pos = {}
     for r in roots:
         writes = [(idx, g) for (root, idx, g) in wlog if root is r]
         if any(idx is None for idx, g in writes):
-            raise Unsupported("bulk array assignment inside a summarised loop @%d" % st.lineno)
-        pos = {}
+            raise Unsupported("whole-array / masked assignment inside a summarised loop @%d" % st.lineno)
+        per_var = []
         for (v, rng_, tname) in loop_vars:
             cands = None
             for idx, g in writes:
-                here = set(p for p, x in enumerate(idx) if is_z3(x) and z3.eq(z3.simplify(x), v))
+                here = set(p for p, x in enumerate(idx) if x is not None and is_z3(x) and z3.eq(z3.simplify(x), v))
                 cands = here if cands is None else cands & here
             if not cands:
                 raise Unsupported("loop variable %s does not own a position of every write to %r @%d; "
                                   "a sidecar invariant is needed" % (tname, r, st.lineno))
-            pos[str(v)] = min(cands)
-        owner[id(r)] = pos
+            per_var.append(sorted(cands))
+        cand_pos[id(r)] = per_var
     all_mids = {}
     for r in roots:
         for m in mids[id(r)]:
@@ -224,11 +226,27 @@ def auto_nest(ex, st, first_range, ordinal):
     ends = {}
     for r in roots:
         ends[id(r)] = [g() for g, s in _slots(r)]
+    # choose, per array, positions that also make every read of the array an owned read
+    owner = {}
+    choices = [list(_it.product(*cand_pos[id(r)])) for r in roots]
+    last_err = None
+    for combo in _it.islice(_it.product(*choices), 64):
+        owner = {}
+        for r, tup in zip(roots, combo):
+            owner[id(r)] = {str(v): p for (v, _, _), p in zip(loop_vars, tup)}
+        try:
+            seen = set()
+            for r in roots:
+                for t in ends[id(r)]:
+                    if t is not None:
+                        _check_reads(t, all_mids, owner, loop_vars, seen, st.lineno)
+            last_err = None
+            break
+        except Unsupported as u:
+            last_err = u
+    if last_err is not None:
+        raise last_err
     seen = set()
-    for r in roots:
-        for t in ends[id(r)]:
-            if t is not None:
-                _check_reads(t, all_mids, owner, loop_vars, seen, st.lineno)
     for lst, elem in appended:
         for c in (elem if isinstance(elem, (tuple, list)) else [elem]):
             if V.sort_of(c) not in ("int", "real", "bool"):
@@ -263,6 +281,23 @@ def auto_nest(ex, st, first_range, ordinal):
         for (g, s), t in zip(_slots(r), new_terms):
             if t is not None:
                 s(t)
+        # tell an enclosing summarised loop what this nest wrote: positions owned by this nest's variables are
+        # "sliced" (None), positions where every write used the same outer expression keep that expression
+        if outer_wlog is not None:
+            writes = [idx for (root, idx, g) in wlog if root is r]
+            owned = set(pos.values())
+            pattern = []
+            for p_ in range(rank):
+                if p_ in owned:
+                    pattern.append(None)
+                    continue
+                exprs = [w[p_] for w in writes]
+                e0 = exprs[0]
+                same = e0 is not None and all(
+                    e is not None and ((is_z3(e) and is_z3(e0) and z3.eq(z3.simplify(V.z3int(e)), z3.simplify(V.z3int(e0))))
+                                       or (not is_z3(e) and not is_z3(e0) and e == e0)) for e in exprs)
+                pattern.append(e0 if same else None)
+            outer_wlog.append((r, tuple(pattern), True))
     # list-building loops: the Python list becomes a list of symbolic length
     for lst, elem in appended:
         (v, rng_, _) = loop_vars[0]
@@ -330,13 +365,16 @@ def _spine(arr):
     return [None]
 
 
-def _check_reads(t, all_mids, owner, loop_vars, seen, line):
+def _check_reads(t, all_mids, owner, loop_vars, seen, line, binders=()):
     if t.get_id() in seen:
         return
     seen.add(t.get_id())
     if z3.is_quantifier(t):
-        if _mentions(t.body(), all_mids):
-            raise Unsupported("modified array read under a binder in a summarised loop @%d" % line)
+        # slice assignments produce  lambda xs. ite(region(xs), new(xs), A[xs]) : the identity read A[xs] copies the
+        # untouched cells and is harmless; every other read under the binder is checked like a plain read (loop
+        # variables are constants, so the ownership test is meaningful under binders too)
+        n = t.num_vars()
+        _check_reads(t.body(), all_mids, owner, loop_vars, seen, line, binders + ((t, n, "array"),))
         return
     if not z3.is_app(t):
         return
@@ -350,6 +388,8 @@ def _check_reads(t, all_mids, owner, loop_vars, seen, line):
             r = all_mids.get(c.get_id())
             if r is None:
                 continue
+            if len(binders) == 1 and binders[-1][2] == "array" and _is_identity_read(t, binders[-1][1]):
+                continue
             pos = owner[id(r)]
             for (v, _, tname) in loop_vars:
                 ix = t.arg(1 + pos[str(v)])
@@ -360,32 +400,53 @@ def _check_reads(t, all_mids, owner, loop_vars, seen, line):
     elif t.num_args() == 0 and t.get_id() in all_mids:
         # bare occurrence of the array (e.g. passed whole to a function)
         raise Unsupported("whole modified array used as a value in a summarised loop @%d" % line)
+    if t.decl().name() == "u_sum":
+        # the summand lambda is not an array value: no identity exception inside it
+        lam = t.arg(0)
+        if z3.is_quantifier(lam):
+            _check_reads(lam.body(), all_mids, owner, loop_vars, seen, line, binders + ((lam, lam.num_vars(), "sum"),))
+        else:
+            _check_reads(lam, all_mids, owner, loop_vars, seen, line, binders)
+        for i in (1, 2):
+            _check_reads(t.arg(i), all_mids, owner, loop_vars, seen, line, binders)
+        return
     for c in t.children():
         if t.decl().kind() == z3.Z3_OP_SELECT and c.get_id() == t.arg(0).get_id():
-            _check_spine_children(c, all_mids, owner, loop_vars, seen, line)
+            _check_spine_children(c, all_mids, owner, loop_vars, seen, line, binders)
         elif t.decl().kind() == z3.Z3_OP_STORE and c.get_id() == t.arg(0).get_id():
-            _check_spine_children(c, all_mids, owner, loop_vars, seen, line)
+            _check_spine_children(c, all_mids, owner, loop_vars, seen, line, binders)
         else:
-            _check_reads(c, all_mids, owner, loop_vars, seen, line)
+            _check_reads(c, all_mids, owner, loop_vars, seen, line, binders)
 
 
-def _check_spine_children(arr, all_mids, owner, loop_vars, seen, line):
+def _is_identity_read(sel, n):
+    """Select(A, Var(n-1), ..., Var(0)) : the cell addressed by the innermost lambda's own bound variables"""
+    if sel.num_args() != n + 1:
+        return False
+    for k in range(n):
+        a = sel.arg(1 + k)
+        if not (z3.is_var(a) and z3.get_var_index(a) == n - 1 - k):
+            return False
+    return True
+
+
+def _check_spine_children(arr, all_mids, owner, loop_vars, seen, line, binders=()):
     """walk a store spine: the spine constant itself is fine, indices and stored values are checked"""
     if z3.is_app(arr):
         k = arr.decl().kind()
         if k == z3.Z3_OP_STORE:
-            _check_spine_children(arr.arg(0), all_mids, owner, loop_vars, seen, line)
+            _check_spine_children(arr.arg(0), all_mids, owner, loop_vars, seen, line, binders)
             for i in range(1, arr.num_args()):
-                _check_reads(arr.arg(i), all_mids, owner, loop_vars, seen, line)
+                _check_reads(arr.arg(i), all_mids, owner, loop_vars, seen, line, binders)
             return
         if k == z3.Z3_OP_ITE:
-            _check_reads(arr.arg(0), all_mids, owner, loop_vars, seen, line)
-            _check_spine_children(arr.arg(1), all_mids, owner, loop_vars, seen, line)
-            _check_spine_children(arr.arg(2), all_mids, owner, loop_vars, seen, line)
+            _check_reads(arr.arg(0), all_mids, owner, loop_vars, seen, line, binders)
+            _check_spine_children(arr.arg(1), all_mids, owner, loop_vars, seen, line, binders)
+            _check_spine_children(arr.arg(2), all_mids, owner, loop_vars, seen, line, binders)
             return
         if arr.num_args() == 0:
             return
-    _check_reads(arr, all_mids, owner, loop_vars, seen, line)
+    _check_reads(arr, all_mids, owner, loop_vars, seen, line, binders)
 
 
 def _mentions(t, all_mids):
